@@ -10,7 +10,7 @@ STUBS = ['np.exp(i x)/cos/sin -> phasors with exact group law', 'np.linalg.inv -
 EXPLANATION = ('Retardance, orientation, rotation and diattenuation are symbols; vortex angle arrays have symbolic entries; arbitrary '
                'complex 2x2 matrices have symbolic entries. Group identities (unitarity, idempotence, Malus, conjugation by rotation, '
                'multiplicativity of the Jones->Mueller map, Pauli reconstruction, batched == element-wise) are phasor/polynomial identities.')
-BOUNDS = {'quick': 'vortex charges -2..3 on angle batches of shape (2,) and (2,2); Jones batches of leading shape (), (2,), (2,2); adapter on 2x2 fields',
+BOUNDS = {'quick': 'vortex charges -2..3 on angle batches of shape (2,) and (2,2); Jones batches of leading shape (), (2,), (2,2); adapter on 2x2 fields; rotation / polariser / retarder definitions at an orientation anywhere on the circle (rational parametrisation)',
           'thorough': 'same, plus batches (3,), (2,3) and adapter on 2x3 / 3x3 fields'}
 OUTSIDE = 'float rounding; propagation itself (C01/C02) beyond component-wise equality'
 NDERIVED = 16
